@@ -510,17 +510,18 @@ class GeopackageLevelCache(TileCacheBase):
         return self._get_level(tile.coord[2]).load_tile(tile, with_metadata=with_metadata, dimensions=dimensions)
 
     def load_tiles(self, tiles, with_metadata=False, dimensions=None):
-        level = None
+        tiles_by_level = {}
         for tile in tiles:
             if tile.source or tile.coord is None:
                 continue
-            level = tile.coord[2]
-            break
+            tiles_by_level.setdefault(tile.coord[2], []).append(tile)
 
-        if not level:
-            return True
-
-        return self._get_level(level).load_tiles(tiles, with_metadata=with_metadata, dimensions=dimensions)
+        loaded = True
+        for level, level_tiles in tiles_by_level.items():
+            if not self._get_level(level).load_tiles(
+                    level_tiles, with_metadata=with_metadata, dimensions=dimensions):
+                loaded = False
+        return loaded
 
     def remove_tile(self, tile, dimensions=None):
         if tile.coord is None:
